@@ -28,9 +28,10 @@ CONSTANTS Names,      \* names that may occur in the index column
 VARIABLES idx, val, extra, hasidx, cache, last, depth
 vars  == <<idx, val, extra, hasidx, cache, last, depth>>
 State == <<idx, val, extra, hasidx>>
-Node  == <<idx, val, extra, hasidx, cache, last.a>>              \* identity of a node of the emitted graph: how a state was
+How   == IF "form" \in DOMAIN last THEN <<last.a, last.form>> ELSE <<last.a>>     \* the call AND the way its row / column was spelled
+Node  == <<idx, val, extra, hasidx, cache, How>>                 \* identity of a node of the emitted graph: how a state was
                                                         \* reached matters to a history-dependent implementation
-View  == <<idx, val, extra, hasidx, cache, last.a, depth>>
+View  == <<idx, val, extra, hasidx, cache, How, depth>>
 
 NoCount == 99                     \* "no ::count given"
 KeyError == -100
@@ -81,11 +82,12 @@ SetCol(form, s) == /\ Len(idx) > 0 /\ s \in Cols(Len(idx)) /\ s # idx
                    /\ UNCHANGED <<val, extra, hasidx>>
                    /\ last' = [a |-> "SetCol", form |-> form, s |-> s]
 
-(* t['name', i] = n *)
-SetCell(i, n) == /\ i \in 1..Len(idx) /\ n # idx[i]
+(* t['name', i] = n, the row given as a position, a negative position, a one-row slice i:i+1, a one-element list, a boolean mask *)
+CellForms == {"pos", "neg", "slice", "list", "mask"}
+SetCell(form, i, n) == /\ i \in 1..Len(idx) /\ n # idx[i]
                  /\ idx' = [idx EXCEPT ![i] = n] /\ cache' = Touch(FALSE)
                  /\ UNCHANGED <<val, extra, hasidx>>
-                 /\ last' = [a |-> "SetCell", i |-> i - 1, n |-> n]
+                 /\ last' = [a |-> "SetCell", form |-> form, i |-> i - 1, n |-> n]
 
 (* t['name', 'a::1'] = n  or  t['name', ('a', 1)] = n : the row is resolved first *)
 SetCellByRow(form, q, n) ==
@@ -128,7 +130,7 @@ SmallQ == IF QSel = "few" THEN {<<"a", NoCount, 0>>, <<"b", 0 - 1, 0>>, <<"a", 1
           ELSE {q \in Queries : q[2] \in {NoCount, 1, -1} /\ q[3] \in {0, 1}}
 
 Live == \/ \E f \in {"item", "attr"} : \E s \in Cols(Len(idx)) : SetCol(f, s)
-        \/ \E i \in 1..Len(idx) : \E n \in Names : SetCell(i, n)
+        \/ \E f \in CellForms : \E i \in 1..Len(idx) : \E n \in Names : SetCell(f, i, n)
         \/ \E f \in {"str", "tuple"} : \E q \in SmallQ : \E n \in Names : SetCellByRow(f, q, n)
         \/ \E f \in {"str", "tuple"} : \E q \in {qq \in SmallQ : qq[2] # 1} : SetVal(f, q, 7)
         \/ AddCol \/ \E f \in {"del", "pop"} : DelCol(f)
